@@ -229,6 +229,18 @@ func (x *Exec) cxIdentTerm(env *cxEnv, name string) Term {
 		}
 		return x.capturedVar(env.live, v)
 	}
+	// a local variable of the unit, by name (innermost = latest declared)
+	var best *types.Var
+	for o := range env.ev.vars {
+		if v, ok := o.(*types.Var); ok && v.Name() == name && !v.IsField() {
+			if best == nil || v.Pos() > best.Pos() {
+				best = v
+			}
+		}
+	}
+	if best != nil {
+		return env.ev.vars[best]
+	}
 	if obj := x.unit.Pkg.Types.Scope().Lookup(name); obj != nil {
 		switch o := obj.(type) {
 		case *types.Const:
@@ -408,7 +420,15 @@ func (x *Exec) cxCallTerm(env *cxEnv, y *cxCall) Term {
 		v := x.cxEval(env, y.Args[0])
 		id, _ := y.Args[1].(*cxIdent)
 		if id != nil {
-			if o := x.unit.Pkg.Types.Scope().Lookup(id.Name); o != nil {
+			o := x.unit.Pkg.Types.Scope().Lookup(id.Name)
+			if o == nil {
+				for _, imp := range x.unit.Pkg.Imports {
+					if imp.PkgPath == "go/ast" && imp.Types != nil {
+						o = imp.Types.Scope().Lookup(id.Name)
+					}
+				}
+			}
+			if o != nil {
 				v.T = types.NewPointer(o.Type())
 				if v.Sort == "Iface" {
 					v = Term{S: "(iref " + v.S + ")", Sort: "Ref", T: v.T}
